@@ -14,7 +14,7 @@ REQUIRED_FEATURES = ["zero_row_operand", "empty_row", "concat_axis1", "mask_all_
                      "empty_window", "end_before_start", "input_1d", "input_2d", "npsarray", "padded_left", "mixed_dtypes"]
 BOUNDS = {"quick": "LV(3,3) (concatenate partners / windows of three-row arrays restricted to LV(3,2) resp. LV(2,3)): all ordered pairs for concatenate axis 0 / axis -1; *_like; padding both sides x 2 fill values; every boolean "
                    "mask pattern over the cells for nonzero / where / subset / mask indexing; every vector of per-row windows 0<=s<=len, 0<=e<=len (an end before the start: empty window) "
-                   "and negative ends for ragged_slice on ragged, 2-D and 1-D (<=2 windows, n<=4) inputs and NPSArray[starts:ends]",
+                   "and negative ends for ragged_slice on ragged, 2-D and 1-D (<=2 windows, n<=4) inputs and NPSArray[starts:ends]; windows with the end before the start; column-major / transposed 2-D inputs; mixed dtypes; held operands re-read",
           "thorough": "LV(3,3) u LV(4,2); concatenate triples over LV(2,2)"}
 
 
